@@ -130,3 +130,59 @@ func (w *WaitGroup) Wait() {
 	}
 	vsched.WaitCond("wg.wait", func() bool { return w.n == 0 })
 }
+
+// OnceFunc, OnceValue, OnceValues: the functions of package sync (their internal Once is not a
+// scheduling point: the first caller runs f, as under any schedule that lets it get there first).
+func OnceFunc(f func()) func()                                 { return sync.OnceFunc(f) }
+func OnceValue[T any](f func() T) func() T                     { return sync.OnceValue(f) }
+func OnceValues[T1, T2 any](f func() (T1, T2)) func() (T1, T2) { return sync.OnceValues(f) }
+
+// Cond is sync.Cond on top of the scheduler: waiters take tickets; Signal releases the oldest
+// waiting ticket, Broadcast all of them. Which released waiter continues first is a scheduler
+// choice (they compete for L).
+type Cond struct {
+	L        Locker
+	next     int // next ticket
+	released int // tickets below this number may continue
+	once     sync.Once
+	real     *sync.Cond // pass-through (no execution active)
+}
+
+func NewCond(l Locker) *Cond { return &Cond{L: l} }
+
+func (c *Cond) plain() *sync.Cond {
+	c.once.Do(func() { c.real = sync.NewCond(c.L) })
+	return c.real
+}
+
+func (c *Cond) Wait() {
+	if !vsched.Active() {
+		c.plain().Wait()
+		return
+	}
+	t := c.next
+	c.next++
+	c.L.Unlock()
+	vsched.WaitCond("cond.wait", func() bool { return c.released > t })
+	c.L.Lock()
+}
+
+func (c *Cond) Signal() {
+	if !vsched.Active() {
+		c.plain().Signal()
+		return
+	}
+	vsched.PointOp("cond.signal")
+	if c.released < c.next {
+		c.released++
+	}
+}
+
+func (c *Cond) Broadcast() {
+	if !vsched.Active() {
+		c.plain().Broadcast()
+		return
+	}
+	vsched.PointOp("cond.broadcast")
+	c.released = c.next
+}
